@@ -78,6 +78,12 @@ func (op *seriesFiltering) findSeriesIDsByExpr(condition stmt.Expr) (tag.KeyID, 
 	case *stmt.ParenExpr:
 		return op.findSeriesIDsByExpr(expr.Expr)
 	case *stmt.NotExpr:
+		if tagFilter, ok := expr.Expr.(stmt.TagFilter); ok {
+			if rs, ok := op.executeCtx.StorageExecuteCtx.TagFilterResult[tagFilter.Rewrite()]; ok && rs.TagKeyNotFound {
+				// no series of this node carries the tag key: nothing to negate
+				return 0, roaring.New()
+			}
+		}
 		// get filter series ids
 		tagKey, matchResult := op.findSeriesIDsByExpr(expr.Expr)
 		// get all series ids for tag key
@@ -107,6 +113,9 @@ func (op *seriesFiltering) getSeriesIDsByExpr(expr stmt.Expr) (tag.KeyID, *roari
 	tagValues, ok := op.executeCtx.StorageExecuteCtx.TagFilterResult[expr.Rewrite()]
 	if !ok {
 		return 0, nil, fmt.Errorf("%w, expr: %s", constants.ErrTagValueFilterResultNotFound, expr.Rewrite())
+	}
+	if tagValues.TagKeyNotFound {
+		return 0, roaring.New(), nil
 	}
 	seriesIDs, err := op.indexDB.GetSeriesIDsByTagValueIDs(tagValues.TagKeyID, tagValues.TagValueIDs)
 	if err != nil {
